@@ -13,7 +13,7 @@ from obligations.scen import OP, u32
 from obligations.c01 import BT_EMPTY, BT_TYPE, BT_FUNC
 
 FEATS = ['bulk_memory', 'reference_types', 'multi_value', 'multi_memory', 'memory64', 'threads', 'mutable_global', 'sign_extension',
-         'saturating_float_to_int', 'simd', 'relaxed_simd', 'tail_call']
+         'saturating_float_to_int', 'simd', 'relaxed_simd', 'tail_call', 'shared_everything_threads', 'custom_page_sizes']
 
 
 def B(x):
@@ -52,6 +52,15 @@ def need_of(N, ops_of, op_props, types):
         nd.add('memory64', t['table64'])
         if t['element_type'] != 'funcref':
             nd.add('reference_types')
+    for m in N['memories'] + [i for i in N['imports'] if i['kind'] == 'memory']:
+        if m.get('page_size_log2') is not None:
+            nd.add('custom_page_sizes')
+    for g in N['globals'] + [i for i in N['imports'] if i['kind'] == 'global']:
+        if g.get('shared') is not None:
+            nd.add('shared_everything_threads', g['shared'])
+    for t in N['tables'] + [i for i in N['imports'] if i['kind'] == 'table']:
+        if t.get('shared') is not None:
+            nd.add('shared_everything_threads', t['shared'])
     for g in [i for i in N['imports'] if i['kind'] == 'global']:
         nd.add('mutable_global', g['mutable'])
         if g['ty'] in ('funcref', 'externref'):
@@ -163,7 +172,7 @@ def mvp_spec(kind):
     if kind == 'bulk':
         body += [OP('I32Const', value=bv(0, 'i32')), OP('I32Const', value=bv(0, 'i32')), OP('I32Const', value=bv(0, 'i32')), OP('MemoryInit', data_index=u32(1), mem=u32(0))]
     if kind == 'unused-bulk-in-dead-code':
-        body += [OP('Return'), OP('DataDrop', data_index=u32(0))]
+        body += [OP('Return'), OP('MemoryFill', mem=u32(0))]      # (data.drop would need a data count section even in dead code)
     sp.funcs = [dict(type=0, ops=scen.tagged_body('f0', 0, body)), dict(type=1, ops=scen.tagged_body('f1', 1, [OP('LocalGet', local_index=u32(0))]))]
     sp.func_tags = ['f0', 'f1']
     sp.tables = [scen.table('t', t64=False)]
